@@ -176,6 +176,11 @@ class AndersonCD(BaseSolver):
                     w[ws_intercept], Xw)
 
                 if is_extrap:  # avoid computing p_obj for un-extrapolated w, Xw
+                    # the extrapolated model fit suffers from cancellation errors:
+                    # recompute it from the current fit and the change on the ws
+                    Xw_acc[:] = Xw + X[:, ws] @ (w_acc[ws] - w[ws])
+                    if self.fit_intercept:
+                        Xw_acc += w_acc[-1] - w[-1]
                     # TODO : manage penalty.value(w, ws) for weighted Lasso
                     p_obj = (datafit.value(y, w[:n_features], Xw) +
                              penalty.value(w[:n_features]))
